@@ -197,9 +197,14 @@ def check_bad(case: t.Any, ctx: Ctx) -> None:
         ctx.fail('refuse', kind, f"rename_field({name!r}, {s!r}) returned {got!r} instead of raising ValueError")
 
 
+# (a field named like a method of the base class - dict, copy, from_data - hides that method on the instance: not a name the check can use)
+_METHOD_NAMES = frozenset(n for n in ('dict', 'copy', 'from_data', 'into_data', 'from_json', 'from_yaml', 'from_yaml_all', 'from_yamls', 'from_jsons',
+                                      'write_json', 'write_yaml', 'make_unchecked', 'from_dict_unchecked', 'from_obj'))
+
+
 @st.composite
 def class_cases(draw) -> t.Any:
-    fields = draw(st.lists(names.filter(lambda ws: not keyword.iskeyword('_'.join(ws)) and '_'.join(ws) not in ('cls', 'self')), min_size=1, max_size=4,
+    fields = draw(st.lists(names.filter(lambda ws: not keyword.iskeyword('_'.join(ws)) and '_'.join(ws) not in ('cls', 'self') and '_'.join(ws) not in _METHOD_NAMES), min_size=1, max_size=4,
                           unique_by=lambda ws: '_'.join(ws)))
     style = draw(st.sampled_from(STYLES))
     mode = draw(st.sampled_from(['rename', 'in_out', 'dict', 'in_many']))
@@ -220,6 +225,9 @@ def check_class(case: t.Any, ctx: Ctx) -> None:
     (fields, style, mode) = case[:3]
     naming = case[3] if len(case) > 3 else ['plain'] * len(fields)
     fnames = ['_'.join(ws) for ws in fields]
+    if any(n in _METHOD_NAMES for n in fnames):
+        ctx.exclude('a field named like a method of the base class')
+        return
     ctx.label(f"class:{mode}:{style if isinstance(style, str) else 'several'}")
     ctx.nontrivial(any(len(ws) >= 2 for ws in fields))
     if mode == 'in_many':
